@@ -705,3 +705,115 @@ class CCAStream(Stream):
             if case[f]:
                 out.append(dict(case, **{f: 0}))
         return out
+
+
+# ---------------------------------------------------------------------------------------------
+# C11 (also the StateSpace constructor): statesp._ssmatrix
+# ---------------------------------------------------------------------------------------------
+
+class SsMatrixStream(Stream):
+    name = "ssm"
+    rule = ("_ssmatrix(data, axis, square, rows, cols) called directly: 0-d to 3-d arrays (axis lengths 0..3) "
+            "of int64 / float64 given as arrays or nested lists / Python scalars, axis in {0, 1}, square in "
+            "{omitted, False, True}, rows / cols omitted or around the resulting shape")
+
+    def generate(self, rng, tier):
+        out = []
+        for _ in range(300 if tier == "quick" else 5000):
+            nd = rng.choice([0, 1, 1, 2, 2, 2, 3])
+            shape = [rng.choice([0, 1, 1, 2, 3]) for _ in range(nd)]
+            if nd == 2 and rng.random() < 0.15:
+                shape = [1, 0]
+            size = int(np.prod(shape)) if shape else 1
+            guess = {0: (1, 1), 1: (1, shape[0] if nd == 1 else 0), 2: tuple(shape) if nd == 2 else (0, 0)}.get(nd, (1, 1))
+            pick = lambda g: rng.choice([None, None, g, g, g + 1, 0])
+            out.append({"sel": "ssm", "shape": shape, "data": [rng.randint(-9, 9) for _ in range(size)],
+                        "kind": rng.choice(["i", "f"]), "form": rng.choice(["array", "array", "list"]),
+                        "axis": rng.choice([0, 1, 1]), "square": rng.choice([None, None, 0, 1]),
+                        "rows": pick(guess[0]), "cols": pick(guess[1])})
+        return out
+
+    def corpus(self):
+        return [{"sel": "ssm", "shape": [3], "data": [1, 2, 3], "kind": "i", "form": "list", "axis": 0,
+                 "square": None, "rows": 3, "cols": None},
+                {"sel": "ssm", "shape": [1, 0], "data": [], "kind": "f", "form": "array", "axis": 1,
+                 "square": 1, "rows": None, "cols": None},
+                {"sel": "ssm", "shape": [2, 3], "data": [1, 2, 3, 4, 5, 6], "kind": "i", "form": "array", "axis": 1,
+                 "square": 1, "rows": None, "cols": None},
+                {"sel": "ssm", "shape": [], "data": [4], "kind": "i", "form": "list", "axis": 1,
+                 "square": None, "rows": 1, "cols": 2}]
+
+    def line(self, case):
+        lst = lambda xs: "%d%s" % (len(xs), "".join(" %s" % x for x in xs))
+        opt = lambda v: "N" if v is None else str(v)
+        return "sel ssm %s %s %s %d %s %s %s" % (case["kind"], lst(case["shape"]), lst(case["data"]), case["axis"],
+                                                 opt(case["square"]), opt(case["rows"]), opt(case["cols"]))
+
+    def impl(self, case):
+        from control.statesp import _ssmatrix
+        a = np.array(case["data"], dtype=np.int64 if case["kind"] == "i" else np.float64).reshape(tuple(case["shape"]))
+        # nested lists cannot express an axis of length 0 behind another axis ([0, 2] -> [] -> shape (0,)):
+        # such arrays are always handed over as arrays
+        x = a.tolist() if case["form"] == "list" and 0 not in case["shape"][1:] and case["shape"][:1] != [0] else a
+        keep = a.copy()
+        kw = {}
+        if case["square"] is not None:
+            kw["square"] = bool(case["square"])
+        if case["rows"] is not None:
+            kw["rows"] = case["rows"]
+        if case["cols"] is not None:
+            kw["cols"] = case["cols"]
+        try:
+            r = _ssmatrix(x, axis=case["axis"], name="M", **kw)
+        except Exception as e:  # noqa
+            kind = {"ControlDimension": "shape"}.get(type(e).__name__, err_kind(e))
+            return {"err": kind, "exc": "%s: %s" % (type(e).__name__, str(e)[:120])}
+        if not bool((a == keep).all()):
+            return {"err": "other:mutated", "exc": "the caller's array was changed"}
+        if isinstance(x, np.ndarray) and np.shares_memory(r, x) and r.size:
+            return {"err": "other:aliased", "exc": "the result shares memory with the argument"}
+        k = r.dtype.kind if r.dtype.kind in "ifc" else "o"
+        return {"ok": [k, list(r.shape), [int(v) for v in r.reshape(-1)]]}
+
+    def parse_model(self, case, out):
+        t = out.split()
+        if t[0] != "ok":
+            return {"err": t[1]}
+        nd = int(t[2])
+        shape = [int(v) for v in t[3:3 + nd]]
+        cnt = int(t[3 + nd])
+        return {"ok": [t[1], shape, [int(v) for v in t[4 + nd:4 + nd + cnt]]]}
+
+    def oracle(self, case):
+        sh = list(case["shape"])
+        if len(sh) > 2:
+            return {"err": "badArg"}
+        if sh in ([1, 0], [0]):
+            sh = [0, 0]
+        elif len(sh) == 1:
+            sh = [1, sh[0]] if case["axis"] == 1 else [sh[0], 1]
+        elif len(sh) == 0:
+            sh = [1, 1]
+        if case["square"] and sh[0] != sh[1]:
+            return {"err": "shape"}
+        if case["rows"] is not None and sh[0] != case["rows"]:
+            return {"err": "shape"}
+        if case["cols"] is not None and sh[1] != case["cols"]:
+            return {"err": "shape"}
+        return {"ok": ["f", sh, list(case["data"])]}
+
+    def compare(self, case, impl, model):
+        same = lambda a, b: a.get("ok") == b.get("ok") and a.get("err") == b.get("err")
+        if same(impl, model):
+            return Verdict(AGREE)
+        want = self.oracle(case)
+        call = "_ssmatrix(%s %s %s, axis=%s, square=%s, rows=%s, cols=%s)" % (
+            case["kind"], case["form"], case["shape"], case["axis"], case["square"], case["rows"], case["cols"])
+        feats = {"kind": "ssm", "ndim": len(case["shape"]), "got": impl.get("err", "ok"), "want": want.get("err", "ok")}
+        if not same(impl, want):
+            return Verdict(VIOLATES, "%s gives %s, documented conversion: %s" % (call, impl, want), feats)
+        return Verdict(DIFFERS, "%s: implementation %s as documented, model %s" % (call, impl, model), feats)
+
+    def stats(self, case, impl, model):
+        return {"stream": "ssm", "ssm_out": model.get("err", "ok") if "err" in model else "ok",
+                "ssm_ndim": len(case["shape"])}
